@@ -1,6 +1,7 @@
 """C12 check configuration."""
 
 PROP = {
+    "thorough_scale": 4,
     "pkg": "internal/home",
     "files": ["home/common_assembly_test.go", "home/c11_test.go", "home/c12_test.go"],
     "level": "exploration",
